@@ -279,6 +279,8 @@ def harnesses(tier: str) -> List[H]:
         cfgs += [("func", True, "factory"), ("static", False, "factory"), ("class", True, "factory"),
                  ("prop_get", False, "factory"), ("prop_set", False, "factory"), ("new", False, "factory"),
                  ("method", False, "default")]
+    #: thorough tier: 3-level chains for these configurations only, the others get the 2-level families of the quick tier
+    deep_cfgs = [("method", False, "factory"), ("prop_get", False, "factory")]
     SP = ["kind_i", "tp", "tq"]
     out.append(H("shared_predicate", bind(run_shared_predicate, (), SP, {}, SP), [I("kind_i", 0, 1), B("tp"), B("tq")],
                  tiers=(tier,), timeout=200,
@@ -300,7 +302,7 @@ def harnesses(tier: str) -> List[H]:
             continue
         # member kinds: split by the shape of level 1 so that the processes run in parallel
         for d1 in (0, 1, 2):
-            if tier == "quick":
+            if tier == "quick" or (kind, is_async, mode) not in deep_cfgs:
                 for a1 in ((0, 1, 2) if d1 == 2 else (0,)):
                     params = [I("a0", 0, 2), I("b0", 0, 2), I("s0", 0, 1), I("i0", 0, 1)]
                     fixed = {"d1": d1, "a1": a1}
@@ -320,10 +322,12 @@ def harnesses(tier: str) -> List[H]:
                                  family_size=36 * [1, 2, 4][d1]))
             else:
                 for d2 in ((0,) if d1 == 0 else (0, 1, 2)):
-                    params = [I("a0", 0, 2), I("b0", 0, 2), I("s0", 0, 1), I("i0", 0, 1)]
+                    # (three overriding levels: at most one precondition per level, so that the harness stays in budget)
+                    hi = 1 if (d1 == 2 and d2 == 2) else 2
+                    params = [I("a0", 0, hi), I("b0", 0, hi), I("s0", 0, 1), I("i0", 0, 1)]
                     fixed = {"d1": d1, "d2": d2}
                     if d1 == 2:
-                        params += [I("a1", 0, 2), I("b1", 0, 1), I("i1", 0, 1)]
+                        params += [I("a1", 0, hi), I("b1", 0, 1), I("i1", 0, 1)]
                     elif d1 == 1:
                         params += [I("i1", 0, 1)]
                     if d2 == 2:
